@@ -265,6 +265,15 @@ Proof.
   intros. rewrite scan_dts_ops, scan_js_ops by assumption. reflexivity.
 Qed.
 
+Lemma exports_same_doc_t t d B B' :
+  bodies_ok B = true -> bodies_ok B' = true -> names_ok t d = true ->
+  length B = length (defs d) -> length B' = length (defs d) ->
+  incl (value_exports (scan (dts_ops t d B))) (value_exports (scan (js_ops (t_base t) d B')))
+  /\ default_names (scan (dts_ops t d B)) = default_names (scan (js_ops (t_base t) d B')).
+Proof.
+  intros. rewrite (same_items t d B B') by assumption. split; [apply incl_refl|reflexivity].
+Qed.
+
 Lemma options_shared c : t_base (type_from_config (parse_config c)) = js_from_config (parse_config c).
 Proof. reflexivity. Qed.
 
@@ -432,6 +441,20 @@ Proof.
     exists n, e2. split; assumption.
 Qed.
 
+Lemma exports_loader_t t d B B' :
+  bodies_ok B = true -> bodies_ok B' = true -> names_ok t d = true ->
+  length B = length (defs d) -> length B' = length (defs d) ->
+  incl (map zero_export (value_exports (scan (dts_ops t d B))))
+       (value_exports (scan (js_ops (t_base t) (loader_view d) B')))
+  /\ default_names (scan (dts_ops t d B)) = default_names (scan (js_ops (t_base t) (loader_view d) B')).
+Proof.
+  intros HB HB' HN HL HL'.
+  rewrite scan_dts_ops by assumption.
+  rewrite scan_js_ops; [|exact HB'|unfold loader_view; cbn [defs]; rewrite map_length; exact HL'].
+  pose proof (items_loader_all (t_base t) d) as HF.
+  split; [apply le_value_exports; exact HF|symmetry; apply le_default_names; exact HF].
+Qed.
+
 Lemma exports_loader c d B B' :
   bodies_ok B = true -> bodies_ok B' = true ->
   names_ok (type_from_config (parse_config c)) d = true ->
@@ -440,13 +463,7 @@ Lemma exports_loader c d B B' :
        (value_exports (scan (js_of_config c (loader_view d) B')))
   /\ default_names (scan (dts_of_config c d B)) = default_names (scan (js_of_config c (loader_view d) B')).
 Proof.
-  intros HB HB' HN HL HL'.
-  unfold dts_of_config, js_of_config. rewrite <- options_shared.
-  set (t := type_from_config (parse_config c)) in *.
-  rewrite scan_dts_ops by assumption.
-  rewrite scan_js_ops; [|exact HB'|unfold loader_view; cbn [defs]; rewrite map_length; exact HL'].
-  pose proof (items_loader_all (t_base t) d) as HF.
-  split; [apply le_value_exports; exact HF|symmetry; apply le_default_names; exact HF].
+  intros. unfold dts_of_config, js_of_config. rewrite <- options_shared. apply exports_loader_t; assumption.
 Qed.
 
 (** * Exactly the exports the property's reading asks for *)
@@ -568,3 +585,38 @@ Lemma names_guard_needed :
   bodies_ok phantom_B = true /\ names_ok phantom_t phantom_doc = false /\
   scan (dts_ops phantom_t phantom_doc phantom_B) <> scan (js_ops (t_base phantom_t) phantom_doc phantom_B).
 Proof. split; [reflexivity|split; [reflexivity|]]. vm_compute. discriminate. Qed.
+
+(** * Non-vacuity: the guards hold on non-trivial inputs and the exports are not empty *)
+
+Definition ex_cfg : cfg_text :=
+  Some (GenT (Some StandaloneTS4_0)
+             (Some (NameT None (Some (s "Vars")) None (Some false) (Some (s "Doc")) None None (Some (s "Frag"))))
+             (Some (ExportT (Some false) (Some true) None))).
+Definition ex_doc : doc :=
+  Doc 3 [OpDef KQuery (Some (s "foo", P 0 6 3 false)) (P 0 0 3 false) (P 0 10 3 false);
+         FragDef (s "F") (P 2 0 3 false);
+         FragDef (s "G") (P 0 0 5 false)].
+Definition ex_B : list defbody :=
+  [Body [W (s "{"); Indent; WF (s "a") (P 0 12 3 false) (Some (s "a")); W (s ": number"); Dedent; W (s "}")] [W (s "{}")] (s "{""kind"":""Document""}");
+   Body [W (s "{}")] [] (s "{}");
+   Body [W (s "{}")] [] (s "{}")].
+
+Example ex_guards :
+  bodies_ok ex_B = true /\ names_ok (type_from_config (parse_config ex_cfg)) ex_doc = true
+  /\ length ex_B = length (defs ex_doc).
+Proof. repeat split; reflexivity. Qed.
+
+Example ex_exports :
+  value_exports (scan (dts_of_config ex_cfg ex_doc ex_B))
+  = [(Named (s "fooDoc"), P 0 6 3 false); (Named (s "FFrag"), P 2 0 3 false)]
+  /\ value_exports (scan (js_of_config ex_cfg (loader_view ex_doc) ex_B))
+  = [(Named (s "fooDoc"), P 0 6 0 false); (Named (s "FFrag"), P 2 0 0 false); (Named (s "GFrag"), P 0 0 0 false)].
+Proof. split; vm_compute; reflexivity. Qed.
+
+(* the default configuration text: one operation => a default export that resolves to it *)
+Example ex_default :
+  bodies_ok ex_B = true /\ names_ok (type_from_config (parse_config None)) ex_doc = true
+  /\ value_exports (scan (dts_of_config None ex_doc ex_B))
+      = [(Named (s "F"), P 2 0 3 false); (Default, P 0 6 3 false)]
+  /\ default_names (scan (js_of_config None (loader_view ex_doc) ex_B)) = [s "FooQuery"].
+Proof. repeat split; vm_compute; reflexivity. Qed.
